@@ -68,6 +68,7 @@ func genC11(c *ctx) {
 	p.HalfTyped = 0
 	p.ExprDepth = 2 + c.n(3)
 	p.ClonePath = c.chance(0.5)
+	p.SiblingLang = c.chance(0.4)
 	c.makeWorld(p)
 	max := 60
 	if c.thorough() {
@@ -90,6 +91,10 @@ func genC11(c *ctx) {
 	c.add(&h.Event{K: "fault", Fault: "reader_error", Arg: int64(c.n(np)), On: true})
 	c.add(&h.Event{K: "check", Check: chk()})
 	c.add(&h.Event{K: "fault", Fault: "paths_order", Arg: int64(c.r.Uint32()), On: true})
+	c.add(&h.Event{K: "check", Check: chk()})
+	// the stored origin lists in another order (sets merged from several jobs)
+	c.add(&h.Event{K: "quiesce"})
+	c.add(&h.Event{K: "fault", Fault: "origins_order", Arg: int64(c.r.Uint32()), On: true})
 	c.add(&h.Event{K: "check", Check: chk()})
 }
 
